@@ -50,39 +50,55 @@ def _remap_node(d, noff, dmap):
 
 
 def inlinable_calls(unit, fn, fd):
+    """Calls that are spliced into fd: (block id, element index, call node id, target raw function, number of leading
+    call arguments that are not parameters (1 for the closure object of a lambda call)).
+
+    Three kinds of NEW helpers (name not in the frozen list) are followed:
+      * member functions of the caller's own class invoked on `this` (or static),
+      * free functions (e.g. a helper in a new detail namespace), whatever their arguments,
+      * lambdas: calls of a closure's operator() whose body is in the unit (captures are by construction references
+        to the enclosing function's own declarations, which keep their ids; a by-copy capture is treated like a
+        by-reference one, which can only differ if the captured variable is modified between capture and call)."""
     kn = known_functions()
     out = []
     for b in fd["blocks"]:
         for idx, e in enumerate(b["elems"]):
             n = fd["nodes"][e]
-            if n.get("k") not in ("CXXMemberCallExpr", "CallExpr") or n.get("inlined"):
+            if n.get("k") not in ("CXXMemberCallExpr", "CallExpr", "CXXOperatorCallExpr") or n.get("inlined"):
                 continue
             cal = n.get("callee")
-            if not cal or cal.get("kind") not in ("method",):
+            if not cal or cal.get("kind") not in ("method", "func", "op"):
                 continue
             if cal["uq"] in kn:
                 continue
             tgt = unit.raw_by_did.get(cal["did"])
-            if tgt is None or not tgt.get("blocks") or tgt["did"] == fd["did"]:
+            if tgt is None or not tgt.get("blocks") or tgt["did"] == fd["did"] or not tgt.get("cfgok", True):
                 continue
-            if tgt.get("clsqn") != fd.get("clsqn") and tgt.get("clsqn") != fd.get("lexclsqn"):
-                continue
-            if n["k"] == "CXXMemberCallExpr":
-                obj = n.get("obj")
-                if obj is None or fd["nodes"][obj].get("k") != "CXXThisExpr":
-                    # allow implicit casts of this
+            skip = 0
+            if cal["kind"] == "op":
+                if cal.get("op") != "()" or not tgt.get("lambda") or n["k"] != "CXXOperatorCallExpr":
+                    continue
+                skip = 1
+            elif cal["kind"] == "func":
+                if n["k"] != "CallExpr":
+                    continue
+            else:
+                if tgt.get("clsqn") != fd.get("clsqn") and tgt.get("clsqn") != fd.get("lexclsqn"):
+                    continue
+                if n["k"] == "CXXMemberCallExpr":
+                    obj = n.get("obj")
                     o = fd["nodes"][obj] if obj is not None else None
                     while o is not None and o.get("k") in ("ImplicitCastExpr",) and o.get("c"):
                         o = fd["nodes"][o["c"][0]]
                     if o is None or o.get("k") != "CXXThisExpr":
                         continue
-            elif not cal.get("static"):
-                continue
-            out.append((b["id"], idx, e, tgt))
+                elif n["k"] != "CallExpr" or not cal.get("static"):
+                    continue
+            out.append((b["id"], idx, e, tgt, skip))
     return out
 
 
-def inline_once(unit, fd, bid, idx, call_id, tgt, instance):
+def inline_once(unit, fd, bid, idx, call_id, tgt, instance, skip=0):
     nodes = fd["nodes"]
     noff = len(nodes)
     call = nodes[call_id]
@@ -104,7 +120,7 @@ def inline_once(unit, fd, bid, idx, call_id, tgt, instance):
     nodes.extend(new_nodes)
     # parameter bindings
     binds = []
-    args = call.get("args", [])
+    args = call.get("args", [])[skip:]
     for p, a in zip(tgt.get("params", []), args):
         nid = len(nodes)
         nodes.append({"i": nid, "k": "ParamBind", "synthetic": True, "l": call.get("l", ""), "d": dmap[p["d"]], "n": p["n"],
@@ -156,6 +172,49 @@ def inline_once(unit, fd, bid, idx, call_id, tgt, instance):
             else:
                 nb["succs"].append({"b": cmap[t], "reach": s["reach"]})
         newb.append(nb)
+    # jump threading: when the inlined call *is* the branch condition of the continuation block (possibly under
+    # casts / negations) and a callee path returns a boolean constant, that path continues directly at the matching
+    # branch target -- `while(helper())` with `return false` on the exit path keeps its exact loop structure
+    chain, neg = [], False
+    c = b2.get("cond")
+    while c is not None:
+        chain.append(c)
+        if c == call_id:
+            break
+        cn = nodes[c]
+        if cn.get("k") == "UnaryOperator" and cn.get("op") == "!":
+            neg = not neg
+        elif cn.get("k") not in ("ImplicitCastExpr", "ParenExpr", "ExprWithCleanups", "CXXBindTemporaryExpr", "MaterializeTemporaryExpr"):
+            c = None
+            break
+        c = cn["c"][0] if cn.get("c") else None
+    live2 = [s_ for s_ in b2["succs"]]
+    if c == call_id and len(live2) == 2 and set(b2["elems"]) <= set(chain) and b2.get("termkind") in (
+            "IfStmt", "WhileStmt", "ForStmt", "DoStmt", "ConditionalOperator"):
+        def const_bool(i):
+            seen = 0
+            while i is not None and seen < 8:
+                x = nodes[i]
+                if x.get("k") == "CXXBoolLiteralExpr":
+                    return bool(x.get("bv"))
+                if x.get("k") in ("ImplicitCastExpr", "ParenExpr", "ExprWithCleanups") and x.get("c"):
+                    i = x["c"][0]
+                    seen += 1
+                    continue
+                return None
+            return None
+        for nb in newb[1:]:
+            rv = None
+            for e in nb["elems"]:
+                x = nodes[e]
+                if x.get("k") == "InlinedReturn":
+                    rv = const_bool(x.get("val")) if "val" in x else None
+            if rv is None:
+                continue
+            truth = (not rv) if neg else rv
+            tgt_succ = live2[0 if truth else 1]
+            nb["succs"] = [({"b": tgt_succ["b"], "reach": s_["reach"] and tgt_succ["reach"]} if s_["b"] == boff else s_) for s_ in nb["succs"]]
+            nb["threaded"] = True
     fd["blocks"].extend(newb)
 
 
@@ -173,19 +232,19 @@ def inline_unit(unit_json):
     for fd in unit_json["functions"]:
         if not fd.get("blocks"):
             continue
-        for _round in range(6):
+        for _round in range(24):
             calls = inlinable_calls(u, None, fd)
             if not calls:
                 break
             # one at a time: indices shift after a splice
-            bid, idx, call_id, tgt = calls[0]
+            bid, idx, call_id, tgt, skip = calls[0]
             instance += 1
-            inline_once(u, fd, bid, idx, call_id, tgt, instance)
+            inline_once(u, fd, bid, idx, call_id, tgt, instance, skip)
             inlined_into.add(tgt["did"])
     kn = known_functions()
     drop = set()
     for did in inlined_into:
         f = originals[did]
-        if f["uq"] not in kn and f.get("access") in ("private", "protected"):
+        if f["uq"] not in kn and (f.get("access") in ("private", "protected") or f.get("lambda") or f.get("kind") == "func"):
             drop.add(did)
     return drop
